@@ -556,7 +556,7 @@ func (c *fsClient) isStackObj(t *Term) bool {
 	return true
 }
 
-func (c *fsClient) OnBackEdge(x *Exec, st *State, fr *Frame, cur *Term) {}
+func (c *fsClient) OnBackEdge(x *Exec, st *State, fr *Frame, cur *Term)                   {}
 func (c *fsClient) OnLoopLeave(x *Exec, st *State, fr *Frame, cur *Term, fromHeader bool) {}
 
 // OnLoopExit discharges tokens that every iteration drawing them released.
